@@ -6,6 +6,10 @@ CONSTANTS
   Methods <- GenMethodsQuick
   Shardings <- GenShardings
   Codes <- GenCodesQuick
+  MeshDirs <- GenNone
+  MeshNames <- GenNone
+  Tables <- GenNone
+  MeshRewritesInfo = "keepAll"
   CfgSpace <- GenCfg
   MaxLen = 6
   AioForwardsMethod = TRUE
